@@ -474,7 +474,7 @@ func inSig(t *Thread, fn *ssa.Function, args []Value, pos token.Pos) Value {
 }
 
 func inYield(t *Thread, fn *ssa.Function, args []Value, pos token.Pos) Value {
-	t.visible(&SyncOp{kind: "yield", obj: t.e.yieldObj, pos: t.posOf(pos), enabled: func() bool { return true }})
+	t.visible(&SyncOp{kind: "yield", obj: t.e.yieldObj, tpos: pos, enabled: func() bool { return true }})
 	return nil
 }
 
@@ -491,7 +491,7 @@ func inMon(t *Thread, fn *ssa.Function, args []Value, pos token.Pos) Value {
 
 func monBody(t *Thread, class int, body Value, pos token.Pos) Value {
 	e := t.e
-	t.visible(&SyncOp{kind: "mon", obj: e.monObj, class: class, pos: t.posOf(pos), enabled: func() bool { return true }})
+	t.visible(&SyncOp{kind: "mon", obj: e.monObj, class: class, tpos: pos, enabled: func() bool { return true }})
 	t.vcAll = vcJoin(t.vcAll, e.monClock) // acquire the monitor
 	for len(t.vcAll) <= t.id {
 		t.vcAll = append(t.vcAll, 0)
@@ -527,7 +527,7 @@ func inBlockUntil(t *Thread, fn *ssa.Function, args []Value, pos token.Pos) Valu
 	if fn.Name() == "vBlockUntilAny" {
 		obj = nil // condition looks at scheduler state (vThreadIdle): dependent on everything
 	}
-	t.visible(&SyncOp{kind: "blockuntil", obj: obj, pos: t.posOf(pos), enabled: en})
+	t.visible(&SyncOp{kind: "blockuntil", obj: obj, tpos: pos, enabled: en})
 	// the condition was established by monitor steps: everything before them is visible now
 	t.vcAll = vcJoin(t.vcAll, e.monClock)
 	return nil
@@ -578,7 +578,7 @@ func inQuiesce(t *Thread, fn *ssa.Function, args []Value, pos token.Pos) Value {
 		}
 		return true
 	}
-	t.visible(&SyncOp{kind: "quiesce", obj: nil, pos: t.posOf(pos), enabled: en})
+	t.visible(&SyncOp{kind: "quiesce", obj: nil, tpos: pos, enabled: en})
 	live := 0
 	for _, o := range e.threads {
 		if o != t && !o.done {
